@@ -24,6 +24,10 @@ func TestFamily(t *testing.T) {
 	switch fam {
 	case "timer":
 		scs = timerScenarios(behs, seed, EnvInt("VERIF_NRANDOM", 200))
+	case "wtw":
+		scs = wtwScenarios(behs, seed, EnvInt("VERIF_NRANDOM", 100))
+	case "wtr":
+		scs = wtrScenarios(seed, EnvInt("VERIF_NRANDOM", 200))
 	default:
 		t.Fatalf("unknown family %q", fam)
 	}
